@@ -744,6 +744,33 @@ namespace c14
                     }
                 }
             }
+            else if (c == "at" || c == "front" || c == "back")
+            {
+                // read accessors: operator[], data(), begin()/end(), front(), back(), const and non-const
+                size_t sz = has(r) ? regs[r].ref.size() : 0;
+                long idx = c == "at" ? s : c == "front" ? 0 : (long)sz - 1;
+                if (!has(r) || sz == 0 || idx < 0 || (size_t)idx >= sz) bad = true;
+                else
+                {
+                    Vec &v = *regs[r].v;
+                    const Vec &cv = v;
+                    size_t i = (size_t)idx;
+                    RE e = c == "at" ? ET::get(v[i]) : c == "front" ? ET::get(v.front()) : ET::get(v.back());
+                    RE alt[] = {ET::get(cv[i]), ET::get(v.data()[i]), ET::get(cv.data()[i]), ET::get(*(v.begin() + i)),
+                                ET::get(*(cv.begin() + i)), ET::get(*(cv.end() - (sz - i))), ET::get(*(v.end() - (sz - i))),
+                                c == "back" ? ET::get(cv.back()) : ET::get(cv.front())};
+                    for (size_t q = 0; q < 7; q++)
+                        if (!(alt[q] == e)) o.fail("accessors disagree on element " + std::to_string(i));
+                    if (c != "at" && !(alt[7] == e)) o.fail("const " + c + "() disagrees");
+                    if (!(e == regs[r].ref[i])) o.fail(c + ": element " + std::to_string(i) + " is " + show(e) + " expected " + show(regs[r].ref[i]));
+                    if (i + 1 == N) o.tag("access-last-slot");
+                    for (auto &er : L().errors) o.fail(er);
+                    L().errors.clear();
+                    L().throw_in = -1;
+                    o.result = show(e);
+                    return;
+                }
+            }
             else if (c == "clear")
             {
                 if (!has(r)) bad = true;
@@ -1115,54 +1142,60 @@ namespace c14
     };
 
 #define C14_V(n) if (N == n) return trk ? (IMachine *)new VMachine<Twin, Tracked, n>(K, canary) : (IMachine *)new VMachine<Twin, int, n>(K, canary);
+#define C14_VT(n) if (N == n && trk) return new VMachine<Twin, Tracked, n>(K, canary);
 #define C14_VI(n) if (N == n && !trk) return new VMachine<Twin, int, n>(K, canary);
 #define C14_S(n) if (N == n) return new SMachine<Twin, n>(K, canary);
-    template <class Twin> IMachine *make_vec(bool trk, size_t N, int K, bool canary)
+    // One translation unit per group of instantiations and twin (the build runs
+    // them in parallel): harness/C14/{c,p}_{small_trk,small_rest,big_trk,big_rest}.cpp.
+    // The groups `big_*` hold the boundaries of a narrowed size counter (int8_t:
+    // 128 values, uint8_t: 256, uint16_t: 65536): capacities just below, at
+    // and above them (Tracked elements at 255..257, int at 65535..65537,
+    // strings at all of them).
+    template <class Twin> IMachine *make_small_trk(bool str, bool trk, size_t N, int K, bool canary)
     {
-        C14_V(1) C14_V(2) C14_V(3) C14_V(8)
+        if (str) return nullptr;
+        C14_VT(1) C14_VT(2) C14_VT(3) C14_VT(8)
         return nullptr;
     }
-    template <class Twin> IMachine *make_str(size_t N, int K, bool canary)
+    template <class Twin> IMachine *make_small_rest(bool str, bool trk, size_t N, int K, bool canary)
     {
-        C14_S(1) C14_S(2) C14_S(3) C14_S(8)
+        if (str)
+        {
+            C14_S(1) C14_S(2) C14_S(3) C14_S(8)
+            return nullptr;
+        }
+        C14_VI(1) C14_VI(2) C14_VI(3) C14_VI(8)
         return nullptr;
     }
-    // the boundaries of a narrowed size counter (uint8_t: 256 values, int8_t:
-    // 128, uint16_t: 65536): capacities just below, at and above them.  One
-    // translation unit per group and twin (harness/C14/big.inc) to keep the
-    // build parallel.
-    template <class Twin> IMachine *make_vec_b8(bool trk, size_t N, int K, bool canary)
+    template <class Twin> IMachine *make_big_trk(bool str, bool trk, size_t N, int K, bool canary)
     {
-        C14_V(255) C14_V(256) C14_V(257)
+        if (str) return nullptr;
+        C14_VT(255) C14_VT(256) C14_VT(257)
         return nullptr;
     }
-    template <class Twin> IMachine *make_str_b8(size_t N, int K, bool canary)
+    template <class Twin> IMachine *make_big_rest(bool str, bool trk, size_t N, int K, bool canary)
     {
-        C14_S(127) C14_S(128) C14_S(255) C14_S(256) C14_S(257)
-        return nullptr;
-    }
-    template <class Twin> IMachine *make_vec_b16(bool trk, size_t N, int K, bool canary)
-    {
-        C14_VI(127) C14_VI(128) C14_VI(65535) C14_VI(65536) C14_VI(65537)
-        return nullptr;
-    }
-    template <class Twin> IMachine *make_str_b16(size_t N, int K, bool canary)
-    {
-        C14_S(65535) C14_S(65536) C14_S(65537)
+        if (str)
+        {
+            C14_S(127) C14_S(128) C14_S(255) C14_S(256) C14_S(257) C14_S(65535) C14_S(65536) C14_S(65537)
+            return nullptr;
+        }
+        C14_VI(65535) C14_VI(65536) C14_VI(65537)
         return nullptr;
     }
 #undef C14_V
+#undef C14_VT
 #undef C14_VI
 #undef C14_S
 
-    // defined in harness/C14/portable.cpp
-    IMachine *make_vec_portable(bool trk, size_t N, int K, bool canary);
-    IMachine *make_str_portable(size_t N, int K, bool canary);
-    // defined in harness/C14/b8_c.cpp, b8_p.cpp, b16_c.cpp, b16_p.cpp
-    IMachine *make_b8_c(bool str, bool trk, size_t N, int K, bool canary);
-    IMachine *make_b8_p(bool str, bool trk, size_t N, int K, bool canary);
-    IMachine *make_b16_c(bool str, bool trk, size_t N, int K, bool canary);
-    IMachine *make_b16_p(bool str, bool trk, size_t N, int K, bool canary);
+    IMachine *make_c_small_trk(bool str, bool trk, size_t N, int K, bool canary);
+    IMachine *make_c_small_rest(bool str, bool trk, size_t N, int K, bool canary);
+    IMachine *make_c_big_trk(bool str, bool trk, size_t N, int K, bool canary);
+    IMachine *make_c_big_rest(bool str, bool trk, size_t N, int K, bool canary);
+    IMachine *make_p_small_trk(bool str, bool trk, size_t N, int K, bool canary);
+    IMachine *make_p_small_rest(bool str, bool trk, size_t N, int K, bool canary);
+    IMachine *make_p_big_trk(bool str, bool trk, size_t N, int K, bool canary);
+    IMachine *make_p_big_rest(bool str, bool trk, size_t N, int K, bool canary);
 }
 
 #endif
